@@ -271,11 +271,19 @@ func (e *Env) inlineHelpers(except ...*types.Func) func(*ssa.Function) bool {
 		}
 	}
 	return func(fn *ssa.Function) bool {
-		if fn.Pkg == nil || !load.IsLib(fn.Pkg.Pkg.Path()) || fn.Parent() != nil || len(fn.Blocks) == 0 {
+		if fn.Pkg == nil || fn.Parent() != nil || len(fn.Blocks) == 0 {
 			return false
 		}
 		obj, _ := fn.Object().(*types.Func)
-		if obj == nil || obj.Exported() || skip[obj] {
+		if obj == nil || skip[obj] {
+			return false
+		}
+		path := fn.Pkg.Pkg.Path()
+		// functions of an internal package of the module are helpers whatever their spelling: not part of the API
+		if load.IsModule(path) && (strings.Contains(path, "/internal/") || strings.HasSuffix(path, "/internal")) {
+			return true
+		}
+		if !load.IsLib(path) || obj.Exported() {
 			return false
 		}
 		return true
